@@ -1021,3 +1021,143 @@ Proof.
   pose proof (W spec) as Hs. clear -Hs. induction (real E spec) as [|c cs IH]; [constructor|].
   inversion Hs; subst. destruct cs; [constructor|]. simpl. constructor; auto.
 Qed.
+
+(* ---------------------------------------------------------------------------------------- *)
+(* the gate's reading of the environment variable is the documented one: "1" or "true" in any letter case *)
+Lemma lower_inv c x : lower_ascii c = x -> c = x \/ c + 32 = x.
+Proof. unfold lower_ascii. destruct ((65 <=? c) && (c <=? 90)); intros H; [right | left]; exact H. Qed.
+
+Lemma lower_one c : lower_ascii c = 49 -> c = 49.
+Proof.
+  unfold lower_ascii. destruct ((65 <=? c) && (c <=? 90)) eqn:B; intros H; [|exact H].
+  apply andb_true_iff in B. destruct B as [B _]. apply N.leb_le in B. lia.
+Qed.
+
+Lemma map_lower_true s :
+  map lower_ascii s = s_true ->
+  exists a b c d, s = [a; b; c; d] /\ (a = 116 \/ a = 84) /\ (b = 114 \/ b = 82) /\ (c = 117 \/ c = 85) /\ (d = 101 \/ d = 69).
+Proof.
+  destruct s as [|a [|b [|c [|d [|e s]]]]]; simpl; intros H; try discriminate.
+  unfold s_true in H. injection H as Ha Hb Hc Hd. exists a, b, c, d. split; [reflexivity|].
+  apply lower_inv in Ha, Hb, Hc, Hd. repeat split; lia.
+Qed.
+
+Theorem env_on_documented v : env_on v = env_grants v.
+Proof.
+  destruct v as [s|]; [|reflexivity]. unfold env_on, env_grants.
+  destruct (str_eqb (map lower_ascii s) s_one) eqn:E1.
+  - apply str_eqb_eq in E1. destruct s as [|c [|c' s]]; simpl in E1; try discriminate.
+    inversion E1 as [Hc]. apply lower_one in Hc. subst c. reflexivity.
+  - destruct (str_eqb (map lower_ascii s) s_true) eqn:E2.
+    + apply str_eqb_eq in E2. apply map_lower_true in E2.
+      destruct E2 as (a & b & c & d & -> & [-> | ->] & [-> | ->] & [-> | ->] & [-> | ->]); reflexivity.
+    + symmetry. apply not_true_is_false. intros H.
+      unfold mem_str in H. vm_compute case_variants in H. cbn [existsb] in H.
+      repeat (apply orb_true_iff in H; destruct H as [H|H];
+              [apply str_eqb_eq in H; subst s; vm_compute in E1; vm_compute in E2; discriminate|]).
+      discriminate.
+Qed.
+
+(* ---------------------------------------------------------------------------------------- *)
+(* the executable oracle used on the implementation's observations accepts everything the model does:
+   whenever the implementation behaves like the model, the oracle cannot reject *)
+Lemma is_prefixb_spec b : forall p, is_prefixb b p = true <-> is_prefix b p.
+Proof.
+  induction b as [|x b IH]; intros p; simpl.
+  - split; [intros _; exists p; reflexivity | reflexivity].
+  - destruct p as [|y p].
+    + split; [discriminate | intros [r Hr]; discriminate].
+    + rewrite andb_true_iff, str_eqb_eq, IH. split.
+      * intros [-> [r ->]]. exists r. reflexivity.
+      * intros [r Hr]. inversion Hr; subst. split; [reflexivity | exists r; reflexivity].
+Qed.
+Lemma is_prefixb_refl b : is_prefixb b b = true.
+Proof. apply is_prefixb_spec. exists []. rewrite app_nil_r. reflexivity. Qed.
+
+Lemma ap_within_refl physb ap : ap_within physb ap ap = true.
+Proof.
+  destruct ap as [bs|]; [|reflexivity]. simpl. apply forallb_forall. intros b Hb.
+  apply existsb_exists. exists b. split; [exact Hb | apply is_prefixb_refl].
+Qed.
+
+Lemma all_flags_le E d a t tr :
+  load_dict E d a = (Ok t, tr) -> Forall (fun f => f = true -> a_ext a = true) (tree_ext_flags (obs_tree t)).
+Proof.
+  intros EL. pose proof (caps_from_caller E d a t tr EL) as (C1 & C2 & C3 & _). cbv zeta in *.
+  unfold tree_ext_flags, tree_nodes in *. rewrite flat_map_app. apply Forall_app. split.
+  - apply Forall_flat_map. apply Forall_forall. intros o Ho. rewrite all_flags_split. apply Forall_app. split.
+    + rewrite Forall_forall in C1. apply Forall_forall. intros f Hf Ht. rewrite <- Ht. symmetry. apply C1.
+      apply in_flat_map. eauto.
+    + rewrite Forall_forall in C2. apply Forall_forall. intros f Hf Ht. exfalso.
+      assert (f = false); [|congruence]. apply C2. rewrite flat_map_app. apply in_or_app. left. apply in_flat_map. eauto.
+  - rewrite C3. constructor.
+Qed.
+
+Theorem model_satisfies_spec E d a o tr1 phs :
+  wf_real (real E) -> load_dict E d a = (o, tr1) ->
+  let ot := match o with Ok t => Some (obs_tree t) | _ => None end in
+  let tr2 := match o with Ok t => snd (convert E t phs) | _ => [] end in
+  spec_ok a (env_grants (e_ext E)) (env_grants (e_tv E)) (real E) ot (tr1 ++ tr2) false = true.
+Proof.
+  intros W EL. cbv zeta. unfold spec_ok. rewrite <- !env_on_documented.
+  apply andb_true_iff. split; [apply andb_true_iff; split|reflexivity].
+  - rewrite forallb_app. apply andb_true_iff. split.
+    + pose proof (load_trace_gated E d a) as T. rewrite EL in T. simpl in T.
+      apply forallb_forall. intros e He. rewrite Forall_forall in T. destruct (T e He) as (p & -> & G & PA).
+      simpl. rewrite G. simpl. destruct (a_ap a) as [bs|]; [|reflexivity].
+      apply path_containment in PA; [|exact W]. destruct PA as (b & Hb & Hp).
+      apply existsb_exists. exists b. split; [exact Hb | apply is_prefixb_spec; exact Hp].
+    + destruct o as [t|c|c]; try reflexivity.
+      pose proof (convert_trace_gated E d a t tr1 phs EL) as T.
+      apply forallb_forall. intros e He. rewrite Forall_forall in T. destruct (T e He) as ([s ->] & G).
+      destruct s; simpl; exact G.
+  - destruct o as [t|c|c]; try reflexivity.
+    pose proof (caps_from_caller E d a t tr1 EL) as (_ & _ & _ & C4). cbv zeta in C4.
+    apply andb_true_iff. split; [apply andb_true_iff; split|].
+    + apply forallb_forall. intros f Hf. pose proof (all_flags_le E d a t tr1 EL) as L.
+      rewrite Forall_forall in L. specialize (L f Hf). destruct f; [rewrite L by reflexivity|]; reflexivity.
+    + apply forallb_forall. intros [[v tv] ap] Hc. rewrite Forall_forall in C4. destruct (C4 _ Hc) as (H1 & H2 & _).
+      simpl in H1, H2. subst tv ap. rewrite ap_within_refl. destruct (a_tv a); reflexivity.
+    + unfold no_vars_without_grant. destruct (a_tv a || env_on (e_tv E)) eqn:G; [reflexivity|]. simpl.
+      apply forallb_forall. intros [[v tv] ap] Hc. rewrite Forall_forall in C4. destruct (C4 _ Hc) as (_ & _ & H3).
+      simpl in H3. destruct v as [p|]; [|reflexivity]. rewrite H3 in G by discriminate. discriminate.
+Qed.
+
+(* ---------------------------------------------------------------------------------------- *)
+(* the literal reading "every item carries the caller's bits" is false for nested external-source items when the
+   caller opts in: NestedProcessingTransformation builds its items without the opt-in *)
+Definition ex_env : env :=
+  {| e_ext := None; e_tv := None; real := fun s => [s]; loadable := fun _ => true; fetch_ok := fun _ => true |}.
+Definition ex_nested_doc : yv :=
+  YMap [(k_transformations,
+         YList [YMap [(k_type, YStr t_nest);
+                      (k_items, YList [YMap [(k_type, YStr t_file); (k_path, YStr (lit "/x")); (k_ext, YBool true)]])]])].
+Definition ex_optin := {| a_ext := true; a_tv := false; a_ap := None |}.
+
+Lemma caps_equal_refuted :
+  exists E d a t tr, load_dict E d a = (Ok t, tr) /\ a_ext a = true /\ In false (tree_ext_flags (obs_tree t)).
+Proof.
+  exists ex_env, ex_nested_doc, ex_optin.
+  eexists. eexists. split; [vm_compute; reflexivity|]. split; [reflexivity|]. vm_compute. left. reflexivity.
+Qed.
+
+Corollary caps_from_caller_yaml E d a src t tr :
+  load_yaml E d a src = (Ok t, tr) ->
+  Forall (fun f => f = true -> a_ext a = true) (tree_ext_flags (obs_tree t)) /\
+  Forall (tpl_is E (a_tv a) (yaml_paths E (a_ap a) src)) (tree_tpl_caps (obs_tree t)).
+Proof.
+  rewrite load_yaml_eq. intros EL. split.
+  - exact (all_flags_le E d _ t tr EL).
+  - pose proof (caps_from_caller E d _ t tr EL) as (_ & _ & _ & C4). exact C4.
+Qed.
+
+Corollary caps_resolver E d spec t tr :
+  load_resolver E d spec = (Ok t, tr) ->
+  Forall (fun f => f = false) (tree_ext_flags (obs_tree t)) /\
+  Forall (tpl_is E false (Some [render (removelast (real E spec))])) (tree_tpl_caps (obs_tree t)).
+Proof.
+  rewrite load_resolver_eq. intros EL. split.
+  - pose proof (all_flags_le E d _ t tr EL) as L. eapply Forall_impl; [|exact L].
+    intros f Hf. destruct f; [discriminate (Hf eq_refl) | reflexivity].
+  - pose proof (caps_from_caller E d _ t tr EL) as (_ & _ & _ & C4). exact C4.
+Qed.
